@@ -133,6 +133,10 @@ UTop ==
                q1 |-> [ name |-> StrV("q1"), n |-> IntV(1), self |-> NodeV("q1") ] ],
     roots |-> [ query |-> "t" ], nth |-> {} ]
 
+\* ---- U-nomut: U-exec without the type Mutation: the schema has no root for mutations
+Without(f, k) == [x \in DOMAIN f \ {k} |-> f[x]]
+UNoMut == [UExec EXCEPT !.types = Without(@, "Mutation"), !.nodeType = Without(@, "m"), !.data = Without(@, "m"), !.roots = Without(@, "mutation")]
+
 \* U with the resolver calls in `faults` (<<node, field>>) made to fail and the list accessors
 \* (<<node, field, index as string>>) made to fail  (C06)
 WithFaults(U, faults) ==
